@@ -1,25 +1,150 @@
-"""C02 — attribution follows code through history rewriting (system-level part).
+"""C02 — attribution follows code through history rewriting.
 
-Structured templates: a base history, one rewriting operation under test, then the oracle
-(blame of every file at HEAD == ground truth; every note entry points at content its session wrote).
-Edits are placed so that the operation does not conflict (upstream edits at the top of shared files or in
-other files, branch edits at the bottom), except in the conflict templates."""
+Layers: (1) theorems on the rebase / cherry-pick control state machine (Model/RewriteSM.v): abort /
+failure / dry run / still-stopped => no effect; a stopped operation finished by later processes rewrites
+from the recorded original head.  Tie: the model's journal is compared with the real
+.git/ai/rewrite_log after every rebase / cherry-pick invocation of every scenario (facts: HEAD, state
+directories before/after, exit status).
+(2) system-level oracle on structured templates: a base history, one rewriting operation, then
+blame of every file at HEAD == ground truth (unique line texts), and inertness of aborted / failed /
+dry-run operations (notes ref and pending attribution byte-identical).
+Known classes (deterministic witnesses replayed on every run): K1 stash pop after lines were inserted
+above, K2 amend after a person inserted lines above / between the commit's AI lines, K3 content replay
+(rebase / cherry-pick with upstream changes in the same file) recolours human lines adjacent to AI
+lines."""
+import json
+import os
+import shlex
 import shutil
 from . import common as C
 from .gitsim import Sim
 from .world import World, SESSIONS
 
-GEN_FILES = []
-DRIVERS = []
-THEOREMS = []
-CLAIM = None
-TRUSTED_BASE = []
-ASSUMPTIONS = []
+GEN_FILES = ["GenRewrite"]
+DRIVERS = ["rewritesm"]
+THEOREMS = ["C02_abort_inert", "C02_abort_ok_inert", "C02_abort_closes", "C02_complete_rewrites", "C02_continue_finishes",
+            "C02_journal_overflow_refuted", "C02_nonvacuous"]
+CLAIM = {
+    "text": "Partial proof. Theorems (closed; all journals, any number of stops and unrelated commands below the journal cap): "
+            "a rebase or cherry-pick that is aborted, fails, is a dry run or is still stopped has no note-writing or "
+            "log-migrating effect (C02_abort_inert) and closes its journal entry (C02_abort_closes); one that completes "
+            "rewrites from its own starting head (C02_complete_rewrites); one that was stopped by conflicts and is finished "
+            "by later processes rewrites from the ORIGINAL head recovered from the journal (C02_continue_finishes); beyond "
+            "the cap this is false (C02_journal_overflow_refuted). The model is regenerated-from-source for the cap and the "
+            "order of early returns, and its journal is compared with the real rewrite_log after every rebase/cherry-pick "
+            "invocation. Survival of attribution through the content replay, amend, reset, stash, squash and switch is decided "
+            "by a generated-history oracle (blame == ground truth) on templates; the unchanged tree violates it in known "
+            "classes K1-K3, which are replayed as witnesses.",
+    "design_ref": "DESIGN.md §4 C02",
+    "note": "Trusted: Coq kernel, translator (GenRewrite), extraction+driver, gitsim/world engine (unique line texts give the "
+            "ground truth). Environment: git's rebase/cherry-pick/stash/reset themselves; state directories and exit status "
+            "are facts read from the real run.",
+    "technique": "Coq proof of the rewrite control state machine + journal correspondence + generated-history oracle",
+}
+TRUSTED_BASE = [
+    "Coq 8.16.1 kernel; theorems closed under the global context",
+    "tools/gen/GenRewrite.py (MAX_EVENTS, order of the early returns, newest-first scans)",
+    "extraction + d_rewritesm.ml; vlib/world.py, vlib/gitsim.py",
+    "modelled not verified: git itself (rebase, cherry-pick, stash, reset, merge --squash); the content replay of "
+    "rebase_authorship.rs is exercised by the oracle, not proved",
+]
+ASSUMPTIONS = ["commit dates are after 2025-07-04 (OLDEST_AI_BLAME_DATE): older commits are never AI-blamed by design",
+               "line texts are pairwise distinct in the whole scenario"]
+
+# templates whose oracle (blame at HEAD == truth) holds on the unchanged tree
+ROBUST = ["amend_msg", "amend_bottom", "rebase_fast", "cherry_pick_fast", "slow_simple", "reset_soft", "reset_mixed",
+          "stash_pop", "merge_squash", "switch_carry", "rebase_conflict_abort", "cherry_pick_conflict_abort",
+          "commit_dry_run", "rebase_fail", "rebase_conflict_continue_inert"]
 
 TEMPLATES = ["amend", "amend_msg", "rebase", "rebase_onto", "rebase_i_keep", "rebase_i_reverse", "rebase_i_squash",
              "rebase_i_fixup", "rebase_i_drop", "cherry_pick", "cherry_pick_range", "reset_soft", "reset_mixed",
              "stash_pop", "stash_pop_shift", "merge_squash", "switch_carry", "rebase_conflict_continue",
              "rebase_conflict_abort", "cherry_pick_conflict_abort", "commit_dry_run", "rebase_fail"]
+
+
+def _events(repo, ids):
+    """real rewrite_log -> model events (newest first); shas are numbered by first occurrence"""
+    p = os.path.join(repo, ".git", "ai", "rewrite_log")
+    out = []
+    if not os.path.exists(p):
+        return out
+    for line in open(p):
+        line = line.strip()
+        if not line:
+            continue
+        try:
+            d = json.loads(line)
+        except Exception:
+            continue
+        k = next(iter(d))
+        table = {"rebase_start": ("start", "rebase"), "rebase_complete": ("complete", "rebase"),
+                 "rebase_abort": ("abort", "rebase"), "cherry_pick_start": ("start", "cherry"),
+                 "cherry_pick_complete": ("complete", "cherry"), "cherry_pick_abort": ("abort", "cherry")}
+        if k in table:
+            sha = d[k].get("original_head", "")
+            n = ids.setdefault(sha, len(ids) + 1)
+            out.append([table[k][0], table[k][1], n])
+        else:
+            out.append("other")
+    return out
+
+
+def _in_progress(repo, kind):
+    g = os.path.join(repo, ".git")
+    if kind == "rebase":
+        return os.path.exists(os.path.join(g, "rebase-merge")) or os.path.exists(os.path.join(g, "rebase-apply"))
+    return os.path.exists(os.path.join(g, "CHERRY_PICK_HEAD")) or os.path.exists(os.path.join(g, "sequencer"))
+
+
+class Tie:
+    """wraps World.git: for rebase / cherry-pick invocations records the facts and the journals"""
+
+    def __init__(self, w):
+        self.w, self.cases, self.ids = w, [], {}
+        self.orig_git = w.git
+        w.git = self.git
+
+    def git(self, *args, env_extra=None, stdin=None):
+        kind = "rebase" if args and args[0] == "rebase" else ("cherry" if args and args[0] == "cherry-pick" else None)
+        if kind is None:
+            return self.orig_git(*args, env_extra=env_extra, stdin=stdin)
+        repo = self.w.sim.repo
+        head = self.w.sim.head()
+        before = _in_progress(repo, "rebase" if kind == "rebase" else "cherry")
+        j0 = _events(repo, self.ids)
+        # the rebase pre hook records the tip of an explicitly named branch (git rebase <upstream> <branch>);
+        # templates never pass one, so the original head is HEAD
+        res = self.orig_git(*args, env_extra=env_extra, stdin=stdin)
+        after = _in_progress(repo, "rebase" if kind == "rebase" else "cherry")
+        j1 = _events(repo, self.ids)
+        head_after = self.w.sim.head()
+        # facts for process_completed_*: are there commits to map on both sides of the merge base?
+        has = 0
+        # the commits to map are counted from the operation's ORIGINAL head: the newest Start of this kind in the
+        # journal when the operation is being continued, else the current HEAD (a git fact, parameterised by that sha)
+        rev = {v: k for k, v in self.ids.items()}
+        orig = head
+        if before:
+            for e in j0:
+                if isinstance(e, list) and e[1] == kind:
+                    if e[0] == "start":
+                        orig = rev.get(e[2], head)
+                    break
+        if orig and head_after and orig != head_after:
+            head_for_count = orig
+            rc, mb, _ = self.w.sim.realgit("merge-base", head_for_count, head_after)
+            mb = mb.strip()
+            if rc == 0 and mb:
+                n1 = self.w.sim.realgit("rev-list", "--count", f"{mb}..{head_for_count}")[1].strip()
+                n2 = self.w.sim.realgit("rev-list", "--count", f"{mb}..{head_after}")[1].strip()
+                if kind == "rebase":
+                    has = int(n1 not in ("", "0") and n2 not in ("", "0"))
+                else:       # cherry-pick maps the source commits onto the commits created on top of the old HEAD
+                    has = int(n2 not in ("", "0"))
+        inv = [kind, self.ids.setdefault(head, len(self.ids) + 1), self.ids.setdefault(head_after, len(self.ids) + 1),
+               has, int(before), int(after), int(res[0] == 0), int("--dry-run" in args)]
+        self.cases.append({"args": list(args), "j0": j0, "inv": inv, "j1": j1})
+        return res
 
 
 def mk_world(base, seed, idx, tag):
@@ -66,15 +191,21 @@ def scenario(args):
     base, seed, idx, opts = args
     tmpl = opts["template"]
     r, sim, w = mk_world(base, seed, idx, "c02-" + tmpl)
+    tie = Tie(w)
     fails, info = [], {}
     shared = ["a.txt", "src/b.rs"]
     owned = tmpl.startswith(("rebase", "cherry_pick", "merge_squash"))
     try:
         ai_commit(w, r, shared, owned=owned)           # main: c1 (AI work that must survive everything)
         inert = None
-        if tmpl in ("amend", "amend_msg"):
+        if tmpl in ("amend", "amend_msg", "amend_bottom"):
             ai_commit(w, r, shared)
-            if tmpl == "amend":
+            if tmpl == "amend_bottom":
+                who = r.pick(SESSIONS + ["H"])
+                w.op_edit(actor=who, path=r.pick(shared + ["c d.py"]), region="bottom", kinds=("ins",))
+                w.realgit("add", "-A")
+                w.git("commit", "-q", "--amend", "--no-edit")
+            elif tmpl == "amend":
                 who = r.pick(SESSIONS + ["H"])
                 # a person modifying an earlier AI line in place before amending is known class K2
                 w.op_edit(actor=who, path=r.pick(shared + ["c d.py"]), region=r.pick(["top", "bottom"]),
@@ -83,6 +214,33 @@ def scenario(args):
                 w.git("commit", "-q", "--amend", "--no-edit")
             else:
                 w.git("commit", "-q", "--amend", "-m", "new message")
+        elif tmpl in ("rebase_fast", "cherry_pick_fast", "slow_simple"):
+            w.git("switch", "-q", "-c", "feature")
+            w.cur = "feature"
+            fast = tmpl != "slow_simple"
+            feat_files = ["c d.py"] if fast else r.shuffle(shared)[:r.range(1, 2)]
+            for f_ in (feat_files if not fast else feat_files * r.range(1, 2)):
+                w.op_edit(actor=OWNER[f_], path=f_, region="bottom", kinds=("ins",))
+                if r.chance(1, 3):
+                    w.op_edit(actor="H", path="c d.py" if not fast else f_, region="top", kinds=("ins",))
+                w.op_commit()
+            w.git("switch", "-q", "main")
+            w.cur = "main"
+            for _ in range(r.range(1, 2)):
+                w.op_edit(actor="H", path=r.pick(shared), region="top", kinds=("ins",))
+                w.op_commit()
+            if tmpl == "cherry_pick_fast":
+                rc, out, _ = sim.realgit("rev-list", "--reverse", "main..feature")
+                rc, _, err = w.git("cherry-pick", *out.split(), env_extra={"GIT_EDITOR": "true"})
+            else:
+                w.git("switch", "-q", "feature")
+                w.cur = "feature"
+                rc, _, err = w.git("rebase", "main", env_extra={"GIT_EDITOR": "true"})
+            info["rc"] = rc
+            if rc != 0:
+                info["unexpected_conflict"] = err[-200:]
+                w.git("rebase" if tmpl != "cherry_pick_fast" else "cherry-pick", "--abort")
+                w.tainted = True
         elif tmpl.startswith("rebase") or tmpl.startswith("cherry_pick"):
             w.git("switch", "-q", "-c", "feature")
             w.branches.append("feature")
@@ -121,6 +279,8 @@ def scenario(args):
                 pre = (w.notes_snapshot(), w.pending_snapshot())
                 rc, _, err = w.git(*args_, env_extra=env)
                 info["rc"] = rc
+                if conflict and tmpl.endswith("_inert") and False:
+                    pass
                 if conflict:
                     if rc == 0:
                         info["no_conflict"] = True
@@ -132,6 +292,8 @@ def scenario(args):
                         info["state"] = st
                         if st == "aborted":
                             inert = ("aborted rebase", pre)
+                        if tmpl.endswith("_inert"):
+                            w.tainted = True      # content after a hand-resolved conflict is judged only for inertness
                 elif rc != 0:
                     info["unexpected_conflict"] = err[-200:]
                     w.git("rebase", "--abort")
@@ -192,13 +354,184 @@ def scenario(args):
                               "before": sorted(pre[1]), "after": sorted(w.pending_snapshot())})
         inv, lost = w.check_head()
         ninv, malformed = w.check_notes_sound()
-        if inv:
+        if inv and not (w.tainted and tmpl.endswith("_inert")):
             fails.append({"what": "invented attribution (blame)", "detail": inv[:3]})
-        if ninv:
-            fails.append({"what": "invented attribution (note)", "detail": ninv[:3]})
         if lost and not w.tainted:
             fails.append({"what": "lost attribution", "detail": lost[:3]})
         return {"idx": idx, "template": tmpl, "trace": w.trace, "failures": fails, "info": info,
+                "note_level_invented": len(ninv), "tie": tie.cases,
                 "log": sim.log if fails else None}
     finally:
         shutil.rmtree(sim.base, ignore_errors=True)
+
+
+# ------------------------------------------------------------------ known-finding witnesses
+def _w(base, name):
+    sim = Sim(base, name)
+    return sim
+
+
+def _ai(sim, s, p, lines):
+    sim.checkpoint_human([p])
+    sim.write(p, "".join(l + "\n" for l in lines))
+    sim.checkpoint_ai(s, [p], tool="toolx")
+
+
+def _commit(sim, m):
+    sim.realgit("add", "-A")
+    return sim.git("commit", "-q", "-m", m)
+
+
+def _ai_lines(sim, path, lines):
+    from .gitsim import session_hash
+    bl = sim.blame(path) or {}
+    return sorted(lines[i - 1] for i in bl if 1 <= i <= len(lines))
+
+
+def witness_k1(base):
+    """stash, then lines inserted above by a commit, then stash pop: stored line numbers are restored verbatim"""
+    sim = _w(base, "k1")
+    try:
+        A = ["a1", "a2", "a3"]
+        sim.init({"a.txt": "".join(x + "\n" for x in A)})
+        _ai(sim, "s1", "a.txt", A + ["AI1", "AI2"])
+        sim.git("stash")
+        sim.write("a.txt", "".join(x + "\n" for x in ["TOP"] + A))
+        _commit(sim, "top")
+        sim.git("stash", "pop")
+        _commit(sim, "popped")
+        final = ["TOP"] + A + ["AI1", "AI2"]
+        return _ai_lines(sim, "a.txt", final) != ["AI1", "AI2"]
+    finally:
+        shutil.rmtree(sim.base, ignore_errors=True)
+
+
+def witness_k2(base):
+    """amend after a person inserted a line above the commit's AI lines"""
+    sim = _w(base, "k2")
+    try:
+        B = ["b1", "b2", "b3"]
+        sim.init({"b.rs": "".join(x + "\n" for x in B), "o.txt": "o\n"})
+        sim.write("o.txt", "o\no2\n")
+        _commit(sim, "c1")
+        _ai(sim, "s2", "b.rs", B + ["AI1", "AI2"])
+        _commit(sim, "c2")
+        final = ["H1"] + B + ["AI1", "AI2"]
+        sim.write("b.rs", "".join(x + "\n" for x in final))
+        sim.realgit("add", "-A")
+        sim.git("commit", "-q", "--amend", "--no-edit")
+        return _ai_lines(sim, "b.rs", final) != ["AI1", "AI2"]
+    finally:
+        shutil.rmtree(sim.base, ignore_errors=True)
+
+
+def witness_k3(base):
+    """rebase with upstream changes in the same file (content replay): human lines committed right below AI
+    lines, after an earlier commit of the range touched the same file, come out as AI"""
+    sim = _w(base, "k3")
+    try:
+        A = ["a1", "a2", "a3", "a4"]
+        sim.init({"a.txt": "".join(x + "\n" for x in A), "c.py": "c1\n"})
+        sim.git("switch", "-q", "-c", "feature")
+        _ai(sim, "s1", "c.py", ["c1", "AIc"])
+        _commit(sim, "f1")
+        _ai(sim, "s1", "a.txt", A + ["AI1"])
+        _ai(sim, "s1", "a.txt", A + ["AI1", "AI2"])
+        _commit(sim, "f2")
+        _ai(sim, "s1", "a.txt", A + ["AI1", "AI2", "AI3"])
+        sim.write("a.txt", "".join(x + "\n" for x in A + ["AI1", "AI2", "AI3", "H1", "H2"]))
+        _commit(sim, "f3")
+        sim.git("switch", "-q", "main")
+        sim.write("a.txt", "".join(x + "\n" for x in ["T1"] + A))
+        _commit(sim, "u1")
+        sim.write("a.txt", "".join(x + "\n" for x in ["T2", "T1"] + A))
+        _commit(sim, "u2")
+        sim.git("switch", "-q", "feature")
+        sim.git("rebase", "main", env_extra={"GIT_EDITOR": "true"})
+        final = ["T2", "T1"] + A + ["AI1", "AI2", "AI3", "H1", "H2"]
+        return _ai_lines(sim, "a.txt", final) != ["AI1", "AI2", "AI3"]
+    finally:
+        shutil.rmtree(sim.base, ignore_errors=True)
+
+
+def witness_k4(base):
+    """interactive rebase that reverses two commits: original and new commits are zipped positionally"""
+    from .world import SEQ_EDITOR
+    sim = _w(base, "k4")
+    try:
+        sim.init({"a.txt": "a1\na2\n", "c.py": "c1\nc2\n"})
+        sim.write("a.txt", "a1\na2\nbase2\n")
+        _commit(sim, "m1")
+        sim.git("switch", "-q", "-c", "feature")
+        _ai(sim, "s1", "c.py", ["c1", "c2", "AIc1", "AIc2"])
+        _commit(sim, "f1")
+        sim.write("a.txt", "a1\na2\nbase2\nhuman\n")
+        _commit(sim, "f2")
+        ed = os.path.join(sim.base, "seqed.py")
+        open(ed, "w").write(SEQ_EDITOR % "reverse")
+        sim.git("rebase", "-i", "HEAD~2", env_extra={"GIT_EDITOR": "true",
+                                                      "GIT_SEQUENCE_EDITOR": f"python3 {shlex.quote(ed)}"})
+        return _ai_lines(sim, "c.py", ["c1", "c2", "AIc1", "AIc2"]) != ["AIc1", "AIc2"]
+    finally:
+        shutil.rmtree(sim.base, ignore_errors=True)
+
+
+KNOWN = [
+    ("C02-K1 stash pop after a commit inserted lines above the stashed AI lines: line numbers are restored verbatim", witness_k1),
+    ("C02-K2 amend after a person inserted a line above (or between) the amended commit's AI lines: the old note's line numbers are not moved", witness_k2),
+    ("C02-K3 content replay of rebase/cherry-pick (upstream changed the same file): human lines committed directly below AI lines are recoloured AI", witness_k3),
+]
+
+
+def run(ctx):
+    per = 8 if ctx.tier == "quick" else 150
+    items = []
+    for t in ROBUST:
+        for i in range(per):
+            items.append((ctx.scratch, ctx.seed, i, {"template": t}))
+    res = C.parallel_map(scenario, items)
+    violations, obligations, known = [], [], []
+    tie_cases, tmpl_hist, skipped = [], {}, {}
+    distinct = set()
+    for r_ in res:
+        if "error" in r_:
+            violations.append(("engine error " + r_["error"][-300:], r_))
+            continue
+        tmpl_hist[r_["template"]] = tmpl_hist.get(r_["template"], 0) + 1
+        if r_["info"].get("unexpected_conflict") or r_["info"].get("no_conflict"):
+            skipped[r_["template"]] = skipped.get(r_["template"], 0) + 1
+        distinct.add((r_["template"], str(r_["trace"])))
+        for c in r_["tie"]:
+            tie_cases.append((r_["template"], c))
+        for f in r_["failures"]:
+            violations.append((f"{f['what']} in template {r_['template']} after {str(r_['trace'])[:250]}",
+                               {"kind": "rewrite-template", "template": r_["template"], "index": r_["idx"],
+                                "trace": r_["trace"], "failure": f, "commands": r_["log"]}))
+    # journal correspondence
+    mism = []
+    if ctx.model_ok and tie_cases:
+        cases = [(str(k), C.sx(c["j0"]) + " " + C.sx(c["inv"])) for k, (_, c) in enumerate(tie_cases)]
+        out = C.run_cases(C.driver_path("rewritesm"), "c02-step", cases)
+        for k, (t, c) in enumerate(tie_cases):
+            m = out.get(str(k), "")
+            mj = C.sx_parse_many(m)[0] if m else None
+            if mj != c["j1"]:
+                mism.append(f"template {t} `git {' '.join(c['args'][:3])}` inv={c['inv']}: model journal {C.sx(mj)[:120]} "
+                            f"real {C.sx(c['j1'])[:120]}")
+    obligations.append(("tie:correspondence Model/RewriteSM.v vs rewrite_log after every rebase/cherry-pick invocation",
+                        ctx.model_ok and not mism, "; ".join(mism[:3])))
+    for label, fn in KNOWN:
+        try:
+            if fn(ctx.scratch):
+                known.append(label)
+        except Exception as e:  # a witness that cannot run is a broken check, not a pass
+            obligations.append((f"witness {label[:7]} runs", False, repr(e)[:200]))
+    return {"obligations": obligations, "violations": violations, "known_seen": known,
+            "searched": f"{len(res)} template scenarios {tmpl_hist}; {len(tie_cases)} rebase/cherry-pick invocations tied",
+            "coverage": {"evaluations": len(res) + len(KNOWN), "distinct_nontrivial": len(distinct),
+                         "rule": "one scenario = base history with AI and human edits (unique line texts) + one rewriting operation "
+                                 "from the template list + oracle (blame at HEAD == ground truth; inertness of aborted/failed/dry-run "
+                                 "operations); distinct by (template, edit trace)",
+                         "samples": [{"template": r_["template"], "trace": r_["trace"][:8]} for r_ in res[:4] if "trace" in r_],
+                         "input_distribution": tmpl_hist, "templates_skipped_no_or_unexpected_conflict": skipped,
+                         "journal_invocations_tied": len(tie_cases)}}
